@@ -101,6 +101,9 @@ def mw_table(ctx, rep):
                 rep.bad("MW2", "veto-flag:" + hook, s.where, "no single flag is cleared by DoneAction of %s" % hook)
                 continue
             fl = next(iter(done_flags))
+            flags_found = getattr(ctx, "_phase_flags", {})
+            flags_found[hook] = (body, fl)
+            ctx._phase_flags = flags_found
             _flag_guards(ctx, rep, body, fl, hook, GUARDED[hook], h, blks)
 
 
@@ -156,6 +159,22 @@ def _flag_guards(ctx, rep, body, fl, hook, phase, h, blks):
     if not phase_nodes:
         rep.bad(R, "guarded-phase-present:" + hook, ctx.where(body), "no %s site on the reducer thread" % phase)
         return
+    true_edges, false_edges, where = flag_guard_edges(ctx, G, body, fl)
+    if not rep.floor(R, "branches on `%s`" % name, len(true_edges), 1, ctx.where(body)):
+        return
+    w_false = G.reach_corr(P.recv, avoid=P.recv, after=True, forbid_edges=true_edges)
+    w_true = G.reach_corr(P.recv, avoid=P.recv, after=True, forbid_edges=false_edges)
+    for k in phase_nodes:
+        rep.check(k not in w_false and k in w_true, R, "flag-guards-phase:%s" % hook, where,
+                  "%s runs iff `%s` is still true" % (phase, name), "%s reachable with `%s` false: %s, with true: %s" % (phase, name, k in w_false, k in w_true))
+
+
+def flag_guard_edges(ctx, G, body, fl):
+    """edges of the event graph taken when flag local `fl` of `body` is true / false: switches
+    on the flag inside `body`, and - when `body` returns the flag - switches of its callers on
+    the call's result"""
+    lr = ctx.lr(body)
+    bp = ctx.prog.bp(body)
     true_edges = []
     false_edges = []
     where = None
@@ -176,13 +195,35 @@ def _flag_guards(ctx, rep, body, fl, hook, phase, h, blks):
         false_edges.append((k, (k[0], body.path, fe)))
         true_edges.append((k, (k[0], body.path, te)))
         where = ctx.where(body, n.bb)
-    if not rep.floor(R, "branches on `%s`" % name, len(true_edges), 1, ctx.where(body)):
-        return
-    w_false = G.reach_corr(P.recv, avoid=P.recv, after=True, forbid_edges=true_edges)
-    w_true = G.reach_corr(P.recv, avoid=P.recv, after=True, forbid_edges=false_edges)
-    for k in phase_nodes:
-        rep.check(k not in w_false and k in w_true, R, "flag-guards-phase:%s" % hook, where,
-                  "%s runs iff `%s` is still true" % (phase, name), "%s reachable with `%s` false: %s, with true: %s" % (phase, name, k in w_false, k in w_true))
+    # does the body return the flag?
+    cfg = ctx.prog.cfg(body)
+    returns = bool(cfg.exits) and all(_copy_source(body, bp, e, {"k": "copy", "place": {"l": 0, "p": []}}) == fl for e in cfg.exits)
+    if returns:
+        for k, n in G.nodes.items():
+            t = n.body.blocks[n.bb]["term"]
+            if t["k"] != "switch" or t["discr"]["k"] not in ("copy", "move"):
+                continue
+            cbp = ctx.prog.bp(n.body)
+            raw = cbp.operand_term(t["discr"], n.bb, "term")
+            neg = False
+            if raw[0] == "unop" and raw[1] == "Not":
+                raw = raw[2]
+                neg = True
+            if raw[0] != "call" or raw[1][0] != n.body.path:
+                continue
+            from mirq.program import Site
+            cs = Site(n.body, raw[1][1], n.body.blocks[raw[1][1]]["term"])
+            cb = ctx.prog.callee_body(cs)
+            if cb is None or cb.path != body.path:
+                continue
+            zero = [bb for v, bb in t["targets"] if str(v) == "0"]
+            nonzero = t["otherwise"]
+            fe = nonzero if neg else (zero[0] if zero else nonzero)
+            te = (zero[0] if zero else nonzero) if neg else nonzero
+            false_edges.append((k, (k[0], n.body.path, fe)))
+            true_edges.append((k, (k[0], n.body.path, te)))
+            where = ctx.where(n.body, n.bb)
+    return true_edges, false_edges, where
 
 
 def mw4_counter(ctx, rep):
